@@ -64,6 +64,12 @@ pub fn replay(cases: &str, verdicts: &str) {
                     v.check(judge(&g, 1), &format!("{} axis-rescaled", variant), &class, &json!({"case": c, "axis_scale_log2": e}), json!(g.as_ref().map(|r| fjs(r))));
                 }
             }
+            // the target between two in-range targets (only the middle one may be out of range): still answered on its own
+            if pos.ends_with("oob") || pos.contains("oob") {
+                let g = run(&[x[0], t, x[x.len() - 1]]);
+                let okm = match (&g, exp_ok) { (None, false) => true, (Some(r), true) => r.len() == 3 && r[0] == y[0] && r[2] == y[y.len() - 1] && (r[1] - ev).abs() <= scale * 2f64.powi(-40), _ => false };
+                v.check(okm, &format!("{} out-of-range target between in-range ones", variant), &class, &c, json!(g.as_ref().map(|r| fjs(r))));
+            }
             // several targets in one call: each answered independently (first knot in the middle)
             let g3 = run(&[t, x[0], t]);
             v.check(judge(&g3, 3), &format!("{} multi", variant), &class, &c, json!(g3.as_ref().map(|r| fjs(r))));
